@@ -28,8 +28,12 @@ def plan(tier):
     def add(names, level="1.5", n_mp=1, label=""):
         cases.append({"spec": {"level": level, "images": images_for(names), "leader": {"n_mp": n_mp, "n_att": 1, "n_chan": 1}}, "label": label or f"{level} mp={n_mp} images={names}"})
 
-    for nm in NAMES_F + NAMES_B:
+    for nm in NAMES_F + NAMES_B + [(pol, f"{m}{n}") for pol in ("HH", "VV") for m in "FB" for n in (0, 6, 7, 8, 9)]:
         add([nm], level="1.1" if nm[1] else "1.5", n_mp=0 if nm[1] else 1)
+    # wide-mode ScanSAR: 7 scans per polarisation, and the full scan-number range 0..9
+    add([("HH", f"F{n}") for n in range(1, 8)], level="1.1", n_mp=0)
+    add([(pol, f"F{n}") for n in (7, 6, 5) for pol in ("HV", "HH")], level="1.1", n_mp=0)
+    add([("VV", f"B{n}") for n in (9, 0, 8)], level="1.1", n_mp=0)
     pairs = list(itertools.permutations(NAMES_F, 2))
     if tier == "quick":
         pairs = pairs[::4] + [p for p in pairs if p[0][0] == p[1][0]][:40]
@@ -147,7 +151,7 @@ def execute_orders(case):
 
 def run(res, tier, seed):
     res.rule = (
-        "k=1: all 24 F-names and 20 B-names; k=2: all ordered pairs of the 24 names [quick: every 4th + 40 same-polarisation pairs];"
+        "k=1: all 24 F-names, 20 B-names and scan numbers 0,6..9; 7-scan and 0..9 scan products; k=2: all ordered pairs of the 24 names [quick: every 4th + 40 same-polarisation pairs];"
         " k=3..8: all rotations + reversal of one combination and a B-method set; 3 levels x map projection 0/1 with 4 images;"
         " section orders: 8 rotations + 28 transpositions + interleaving through open_alos2, all 8! [quick: first 5040] through"
         " summary.open_summary. Images differ in size and carry their id in the pixels; the whole tree is compared."
